@@ -108,6 +108,8 @@ impl<I: Interner> Table<I> {
     /// Mark the table as floundered -- this also discards all pre-existing answers,
     /// as they are no longer relevant.
     pub(crate) fn mark_floundered(&mut self) {
+        #[cfg(chalk_verif)]
+        chalk_ir::verif::probe("slg.table_floundered");
         self.floundered = true;
         self.strands = Default::default();
         self.answers = Default::default();
